@@ -284,6 +284,27 @@ var targets = []target{
 			"CertificateBuildParams.IsARetry":        {Rets: []ty{{k: kBool}}, RecvOpt: true},
 		},
 		Funcs: []string{"baseFlow.limitCertSize", "baseFlow.getNewLocalExitRoot", "baseFlow.verifyRetryCertStartingBlock"}},
+	{File: "aggsender/flows/flow_base.go", Out: "GenGetParams.v",
+		Module: "aggsender/flows/flow_base.go (GetCertificateBuildParamsInternal: which certificate the flows set out to build), on top of Gen/GenBuildParams.v",
+		IntLit: true, Hash: true, Ctx: "baseFlow", Imports: []string{"Gen.GenBuildParams"}, DropParams: []string{"ctx"},
+		CtxCalls: map[string]ctxCall{
+			"GetLastProcessedBlock":         {Var: "lastProcessedBlock", Rets: []ty{{k: kInt}, {k: kErr}}},
+			"GetLastSentCertificateHeader":  {Var: "lastSentCertificateHeader", Rets: []ty{{k: kOpt, sub: []ty{{k: kStruct, name: "CertificateHeader"}}}, {k: kErr}}},
+			"getLastSentBlockAndRetryCount": {Var: "lastSentBlockAndRetryCount", Params: []ty{{k: kOpt, sub: []ty{{k: kStruct, name: "CertificateHeader"}}}}, Rets: []ty{{k: kInt}, {k: kZ}}},
+			"GetBridgesAndClaims": {Var: "bridgesAndClaims", Params: []ty{{k: kInt}, {k: kInt}},
+				Rets: []ty{{k: kList, sub: []ty{{k: kStruct, name: "Bridge"}}}, {k: kList, sub: []ty{{k: kStruct, name: "Claim"}}}, {k: kErr}}},
+			"limitCertSize": {Var: "limitCertSize", Params: []ty{{k: kOpt, sub: []ty{{k: kStruct, name: "CertificateBuildParams"}}}},
+				Rets: []ty{{k: kOpt, sub: []ty{{k: kStruct, name: "CertificateBuildParams"}}}, {k: kErr}}}},
+		Structs:       []string{"Bridge", "Claim", "CertificateHeader", "CertificateBuildParams"},
+		ExternStructs: []string{"Bridge", "Claim", "CertificateHeader", "CertificateBuildParams"},
+		StructsFrom: map[string]string{"Bridge": "bridgesync/processor.go", "Claim": "bridgesync/processor.go", "CertificateHeader": "aggsender/types/types.go",
+			"CertificateBuildParams": "aggsender/types/certificate_build_params.go"},
+		StructFields: map[string][]string{
+			"Bridge": {"BlockNum", "Metadata", "DepositCount"}, "Claim": {"BlockNum", "Metadata"}, "CertificateHeader": {"Height", "FromBlock"},
+			"CertificateBuildParams": {"FromBlock", "ToBlock", "Bridges", "Claims", "RetryCount", "LastSentCertificate", "CertificateType"}},
+		IntTypes:  []string{"CertificateType"},
+		TypeAlias: map[string]string{"types.CertificateBuildParams": "CertificateBuildParams"},
+		Funcs:     []string{"baseFlow.GetCertificateBuildParamsInternal"}},
 	{File: "aggsender/flows/max_l2blocknumber_limiter.go", Out: "GenAdaptCert.v",
 		Module: "aggsender/flows/max_l2blocknumber_limiter.go (IsEnabled, IsAllowedBlockNumber, isUpcomingNextRange, AdaptCertificate), on top of Gen/GenBuildParams.v",
 		IntLit: true, Hash: true, Ctx: "MaxL2BlockNumberLimiter", Imports: []string{"Gen.GenBuildParams"},
@@ -995,7 +1016,10 @@ func (t *tr) call(v *ast.CallExpr, en *env) (string, ty) {
 						continue
 					}
 				}
-				c, _ := t.expr(a, en)
+				c, ct := t.expr(a, en)
+				if k := len(args); k < len(cc.Params) && cc.Params[k].k == kOpt && ct.k == kStruct { // a non-nil pointer (p := &T{..}) handed to the call
+					c = "(Some " + c + ")"
+				}
 				args = append(args, c)
 			}
 			if _, known := t.ctxVars[cc.Var]; !known {
@@ -1766,7 +1790,7 @@ func (t *tr) block(list []ast.Stmt, en *env, tail string, ind string) string {
 				parts = append(parts, "EOK")
 				continue
 			}
-			if id, ok := r.(*ast.Ident); ok && i < len(en.rets) && en.rets[i].k == kErr && strings.HasPrefix(id.Name, "Err") {
+			if id, ok := r.(*ast.Ident); ok && i < len(en.rets) && en.rets[i].k == kErr && (strings.HasPrefix(id.Name, "Err") || strings.HasPrefix(id.Name, "err")) {
 				if _, local := en.vars[id.Name]; !local { // a package-level sentinel error
 					parts = append(parts, "EFail")
 					continue
